@@ -124,6 +124,10 @@ func c34Check(w *c33World, s *c33State, dir, cmd string, res *c33StateResult) ([
 
 	kind, arg, _ := strings.Cut(cmd, ":")
 	switch kind {
+	case "syncb":
+		// a sync for a branch that does not exist: outside C34's model (C33 compares it with its preview)
+		res.Counts["sync_no_claim_cases"]++
+		return recsAfter, nil
 	case "sync":
 		e := c34Model(s, strings.Split(arg, ","))
 		switch {
